@@ -3,9 +3,9 @@ import JivaVerif.Drv.Controller
 /-! Line-protocol driver for the whole-volume model (`drv cluster`).
 
 Requests: `init rf n`, `reg i | e` (`e`: the replica the election loop ended on, `-` = none),
-`w fails | applied`, `add i`, `setrb i`, `promote i src`, `rbdone i`, `rm i`, `stop`.
+`w fails | applied`, `add i`, `setrb i`, `promote i src`, `rbdone i`, `rm i`, `snap`, `stop`.
 Answer: result, then the observable state — which replicas are attached in which mode, and for every
-directory its counter, its rebuilding flag and the writes it holds — then the ghost part
+directory its counter, its rebuilding flag, the writes it holds and the volume snapshots it holds — then the ghost part
 (acknowledged writes, and whether this stop found the volume in good health). -/
 namespace Jiva.Drv
 open Jiva Cluster
@@ -21,6 +21,7 @@ def parseClusterOp (n : Nat) (ws : List String) : Option Op :=
   | ["promote", i, src] => do some (.promote (← i.toNat?) (← src.toNat?))
   | ["rbdone", i] => do some (.rbdone (← i.toNat?))
   | ["rm", i] => do some (.remove (← i.toNat?))
+  | ["snap"] => some .snap
   | ["stop"] => some .stop
   | _ => none
 
@@ -33,7 +34,8 @@ def showSys (s : Sys) (o : Cluster.Out) (healthy : String) : String :=
     | .rw => some s!"{i}:RW" | .wo => some s!"{i}:WO" | .none => none)
   let disks := ";".intercalate (s.idx.map fun i =>
     let nd := s.node i
-    s!"{nd.rev}:{if nd.rebuilding then 1 else 0}:{".".intercalate (nd.log.map toString)}")
+    let snaps := ",".intercalate (nd.snaps.map fun p => s!"{p.1}={".".intercalate (p.2.map toString)}")
+    s!"{nd.rev}:{if nd.rebuilding then 1 else 0}:{".".intercalate (nd.log.map toString)}:{snaps}")
   s!"{clusterOut o} up={if s.up then 1 else 0} members={members} disks={disks} acked={",".intercalate (s.acked.map toString)}{healthy}"
 
 partial def clusterLoop (h : IO.FS.Stream) (out : IO.FS.Stream) (s : Sys) : IO Unit := do
